@@ -28,6 +28,8 @@ type Config struct {
 	// MapOrderFuncs: functions in which `range` over a map of 2..3 entries
 	// explores every iteration order (Go leaves the order unspecified).
 	MapOrderFuncs map[string]bool
+	// MaxPreempt bounds the preemptive context switches of the cooperative scheduler.
+	MaxPreempt int
 }
 
 const symPkgSuffix = "/zz_verif/sym"
@@ -35,7 +37,7 @@ const symPkgSuffix = "/zz_verif/sym"
 var noopPrefixes = []string{
 	"k8s.io/klog/v2.", "(k8s.io/klog/v2.", "(*k8s.io/klog/v2.",
 	"k8s.io/apimachinery/pkg/util/runtime.HandleError",
-	"k8s.io/apimachinery/pkg/util/runtime.HandleCrash",
+	"k8s.io/apimachinery/pkg/util/runtime.logPanic",
 	"(*sync.Mutex).", "(*sync.RWMutex).", "(*sync.WaitGroup).",
 	"time.Sleep", "(*strings.Builder).copyCheck",
 	"runtime.SetFinalizer", "runtime.KeepAlive", "runtime.Gosched",
@@ -595,6 +597,14 @@ func init() {
 				}
 			}
 			return true
+		},
+		"(*sync.Mutex).Lock": func(caller *frame, fn *ssa.Function, args []value) value {
+			caller.i.mutexLock(args[0].(*value))
+			return nil
+		},
+		"(*sync.Mutex).Unlock": func(caller *frame, fn *ssa.Function, args []value) value {
+			caller.i.mutexUnlock(args[0].(*value))
+			return nil
 		},
 		"os.Getenv":                        func(caller *frame, fn *ssa.Function, args []value) value { return "" },
 		"sync/atomic.LoadInt32":            atomicLoad,
